@@ -820,3 +820,569 @@ def build_TC10f(tree):
 
 
 TARGETS['TC10f'] = {'file': 'spatial.py', 'build': build_TC10f}
+
+
+# ---------------------------------------------------------------------------------------------------------------------------
+# TC10g  "calls and images": (1) the `__call__` of the six transformer classes as a SPEC the model interprets: required shape[1]
+# of the argument, whether only integer dtypes are accepted, the constant rows stacked under the transposed argument (zeros /
+# ones), how many rows of the product are returned, the out-of-plane test under the drop flag (column tested, threshold, strict
+# `>`, columns kept) and whether there is a rounding flag (np.around(..).astype(int)); the drop test comes BEFORE the rounding;
+# (2) for_image / for_images: which element of the tuple returned by _get_spatial_information reaches which constructor keyword,
+# the slice spacing used when the dataset declares none, which flags are passed on; (3) _get_spatial_information: for every
+# functional group it needs, where it is looked up and in which order (shared before per-frame), that per-frame groups are ignored
+# for TILED_FULL, the z origin of the total pixel matrix when absent; (4) iter_tiled_full_frame_data: the nesting of its loops
+# (channel, focal plane, tile), the z offset of a focal plane, its defaults, the number of tiles per row / column and the order of the
+# tiles; the frame picked by `itertools.islice`.
+
+def _const_rat(node, what):
+    from fractions import Fraction
+    if isinstance(node, ast.Constant) and isinstance(node.value, (int, float)) and not isinstance(node.value, bool):
+        f = Fraction(repr(node.value)) if isinstance(node.value, float) else Fraction(node.value)
+        return f'(({f.numerator} : Rat) / {f.denominator})'
+    raise Unsupported(f'{what}: not a numeric literal: {ast.unparse(node)}')
+
+
+def _call_spec(tree, cls):
+    from py2lean import strip_doc
+    fn = find_func(tree, f'{cls}.__call__')
+    body = strip_doc(fn.body)
+    arg = fn.args.args[1].arg
+    i = 0
+    # 1. shape test
+    st = body[i]
+    if not (isinstance(st, ast.If) and not st.orelse and len(st.body) == 1 and isinstance(st.body[0], ast.Raise)
+            and ast.unparse(st.body[0].exc.func) == 'ValueError' and isinstance(st.test, ast.Compare)
+            and ast.unparse(st.test.left) == f'{arg}.shape[1]' and len(st.test.ops) == 1 and isinstance(st.test.ops[0], ast.NotEq)):
+        raise Unsupported(f'{cls}.__call__: first statement is not the shape test: {ast.unparse(st)[:80]}')
+    width = _num(st.test.comparators[0])
+    i += 1
+    # 2. optional dtype test
+    int_only = False
+    st = body[i]
+    if isinstance(st, ast.If) and f'{arg}.dtype.kind' in ast.unparse(st.test):
+        if not (ast.unparse(st.test) == f"{arg}.dtype.kind not in ('u', 'i')" and not st.orelse and len(st.body) == 1
+                and isinstance(st.body[0], ast.Raise) and ast.unparse(st.body[0].exc.func) == 'TypeError'):
+            raise Unsupported(f'{cls}.__call__: dtype test changed: {ast.unparse(st.test)}')
+        int_only = True
+        i += 1
+    # 3. homogeneous coordinates
+    st = body[i]
+    if not (isinstance(st, ast.Assign) and isinstance(st.value, ast.Call) and ast.unparse(st.value.func) == 'np.vstack'
+            and len(st.value.args) == 1 and isinstance(st.value.args[0], ast.List)):
+        raise Unsupported(f'{cls}.__call__: np.vstack([...]) expected: {ast.unparse(st)[:80]}')
+    hom = ast.unparse(st.targets[0])
+    elts = st.value.args[0].elts
+    if ast.unparse(elts[0]) != f'{arg}.T.astype(float)':
+        raise Unsupported(f'{cls}.__call__: first stacked block is {ast.unparse(elts[0])}')
+    pad = []
+    for e in elts[1:]:
+        t = ast.unparse(e)
+        if t == f'np.zeros(({arg}.shape[0],), dtype=float)':
+            pad.append('0')
+        elif t == f'np.ones(({arg}.shape[0],), dtype=float)':
+            pad.append('1')
+        else:
+            raise Unsupported(f'{cls}.__call__: stacked block {t}')
+    i += 1
+    # 4. product
+    st = body[i]
+    if not (isinstance(st, ast.Assign) and ast.unparse(st.value) == f'np.dot(self._affine, {hom})'):
+        raise Unsupported(f'{cls}.__call__: product is {ast.unparse(st)[:80]}')
+    out = ast.unparse(st.targets[0])
+    i += 1
+    # 5. rows kept, then (drop) then (round)
+    def rows_kept(e):
+        t = ast.unparse(e)
+        for k in (2, 3):
+            if t == f'{out}[:{k}, :].T':
+                return k
+        raise Unsupported(f'{cls}.__call__: returned rows {t}')
+    st = body[i]
+    drop, has_round = None, False
+    if isinstance(st, ast.Return):
+        keep = rows_kept(st.value)
+        if i != len(body) - 1:
+            raise Unsupported(f'{cls}.__call__: statements after return')
+    else:
+        if not (isinstance(st, ast.Assign) and ast.unparse(st.targets[0]) == out):
+            raise Unsupported(f'{cls}.__call__: {ast.unparse(st)[:80]}')
+        keep = rows_kept(st.value)
+        i += 1
+        st = body[i]
+        if isinstance(st, ast.If) and ast.unparse(st.test) in ('self._drop_slice_index', 'self._drop_slice_coord'):
+            if st.orelse or len(st.body) != 2:
+                raise Unsupported(f'{cls}.__call__: drop block changed')
+            inner, cut = st.body
+            if not (isinstance(inner, ast.If) and not inner.orelse and len(inner.body) == 1 and isinstance(inner.body[0], ast.Raise)
+                    and ast.unparse(inner.body[0].exc.func) == 'RuntimeError'):
+                raise Unsupported(f'{cls}.__call__: out-of-plane refusal changed')
+            t = inner.test
+            if not (isinstance(t, ast.Call) and ast.unparse(t.func).endswith('.any') and isinstance(t.func.value, ast.Compare)
+                    and len(t.func.value.ops) == 1 and isinstance(t.func.value.ops[0], ast.Gt)):
+                raise Unsupported(f'{cls}.__call__: out-of-plane test {ast.unparse(t)}')
+            cmp_ = t.func.value
+            col = None
+            for k in range(3):
+                if ast.unparse(cmp_.left) == f'np.abs({out}[:, {k}])':
+                    col = k
+            if col is None:
+                raise Unsupported(f'{cls}.__call__: out-of-plane test on {ast.unparse(cmp_.left)}')
+            thr = _const_rat(cmp_.comparators[0], f'{cls}.__call__ threshold')
+            kc = None
+            for k in (1, 2, 3):
+                if ast.unparse(cut) == f'{out} = {out}[:, :{k}]':
+                    kc = k
+            if kc is None:
+                raise Unsupported(f'{cls}.__call__: columns kept: {ast.unparse(cut)}')
+            drop = (col, thr, kc)
+            i += 1
+            st = body[i]
+        if isinstance(st, ast.If) and ast.unparse(st.test) == 'self._round_output':
+            if not (len(st.body) == 1 and len(st.orelse) == 1 and ast.unparse(st.body[0]) == f'return np.around({out}).astype(int)'
+                    and ast.unparse(st.orelse[0]) == f'return {out}'):
+                raise Unsupported(f'{cls}.__call__: rounding block changed')
+            has_round = True
+        elif not (isinstance(st, ast.Return) and ast.unparse(st.value) == out):
+            raise Unsupported(f'{cls}.__call__: {ast.unparse(st)[:80]}')
+        if i != len(body) - 1:
+            raise Unsupported(f'{cls}.__call__: statements after the result')
+    d = 'none' if drop is None else f'some ({drop[0]}, {drop[1]}, {drop[2]})'
+    return (f'({width}, {str(int_only).lower()}, [{", ".join(pad)}], {keep}, {d}, {str(has_round).lower()})'), fn
+
+
+_SPEC_T = 'Nat × Bool × List Rat × Nat × Option (Nat × Rat × Nat) × Bool'
+
+
+def build_TC10g(tree):
+    out, spans = [], []
+    for cls, ln in (('PixelToReferenceTransformer', 'pixToRefCallSpec'), ('ReferenceToPixelTransformer', 'refToPixCallSpec'),
+                    ('PixelToPixelTransformer', 'pixToPixCallSpec'), ('ImageToReferenceTransformer', 'imgToRefCallSpec'),
+                    ('ReferenceToImageTransformer', 'refToImgCallSpec'), ('ImageToImageTransformer', 'imgToImgCallSpec')):
+        t, fn = _call_spec(tree, cls)
+        out.append(f'/-- `{cls}.__call__`: (required shape[1], integer dtypes only, constant rows stacked under the transposed argument, rows of\n'
+                   f'the product returned, under the drop flag (column tested with `abs(.) >`, threshold, columns kept), has a rounding flag) -/\n'
+                   f'def {ln} : {_SPEC_T} :=\n  {t}')
+        spans.append(fn)
+    # ---- defaults of the flags of the constructors
+    for cls, flags in (('ReferenceToPixelTransformer', (('round_output', 'refToPixDefaultRound'), ('drop_slice_index', 'refToPixDefaultDrop'))),
+                       ('PixelToPixelTransformer', (('round_output', 'pixToPixDefaultRound'),)),
+                       ('ReferenceToImageTransformer', (('drop_slice_coord', 'refToImgDefaultDrop'),))):
+        fn = find_func(tree, f'{cls}.__init__')
+        d = _defaults(fn)
+        for flag, ln in flags:
+            if flag not in d:
+                raise Unsupported(f'{cls}.__init__: no default for {flag}')
+            out.append(f'/-- default of `{flag}` of `{cls}` -/\ndef {ln} : Bool := {_boolc(d[flag], cls)}')
+            a = _local_assign(fn, f'self._{flag}')
+            if ast.unparse(a.value) != flag:
+                raise Unsupported(f'{cls}.__init__: self._{flag} = {ast.unparse(a.value)}')
+            spans.append(a)
+        spans.append(fn.args)
+    # ---- the two point helpers: transformer on a one-row array, first row of the result, Python round of each entry
+    fn = find_func(tree, 'map_pixel_into_coordinate_system')
+    tr = _local_assign(fn, 'transformer')
+    if ast.unparse(tr.value.func) != 'PixelToReferenceTransformer':
+        raise Unsupported('map_pixel_into_coordinate_system: transformer is not a PixelToReferenceTransformer')
+    out.append(_forward_def(fn, tr.value, _AFFINE_SLOTS[:3], 'mapPixelCall', 'map_pixel_into_coordinate_system: arguments of PixelToReferenceTransformer'))
+    spans.append(tr)
+    a = _local_assign(fn, 'transformed_coordinates')
+    if ast.unparse(a.value) != 'transformer(np.array([index], dtype=int))':
+        raise Unsupported(f'map_pixel_into_coordinate_system: {ast.unparse(a.value)}')
+    spans.append(a)
+    a = _local_assign(fn, 'reference_coordinates')
+    if ast.unparse(a.value) != 'transformed_coordinates[0, :].tolist()':
+        raise Unsupported(f'map_pixel_into_coordinate_system: {ast.unparse(a.value)}')
+    spans.append(a)
+    ret = _one((n for n in fn.body if isinstance(n, ast.Return)), 'return of map_pixel_into_coordinate_system')
+    if ast.unparse(ret.value) != '(reference_coordinates[0], reference_coordinates[1], reference_coordinates[2])':
+        raise Unsupported(f'map_pixel_into_coordinate_system returns {ast.unparse(ret.value)}')
+    spans.append(ret)
+    fn = find_func(tree, 'map_coordinate_into_pixel_matrix')
+    d = _defaults(fn)
+    if set(d) != {'spacing_between_slices'}:
+        raise Unsupported(f'map_coordinate_into_pixel_matrix: optional parameters {sorted(d)}')
+    out.append(f'/-- default slice spacing of map_coordinate_into_pixel_matrix -/\ndef mapCoordinateDefaultSpacingBetweenSlices : Rat := {_rat(d["spacing_between_slices"])}')
+    tr = _local_assign(fn, 'transformer')
+    if ast.unparse(tr.value.func) != 'ReferenceToPixelTransformer':
+        raise Unsupported('map_coordinate_into_pixel_matrix: transformer is not a ReferenceToPixelTransformer')
+    out.append(_forward_def(fn, tr.value, _AFFINE_SLOTS, 'mapCoordinateCall',
+                            'map_coordinate_into_pixel_matrix: arguments of ReferenceToPixelTransformer (flags not passed: its defaults)'))
+    spans.append(tr)
+    a = _local_assign(fn, 'transformed_coordinates')
+    if ast.unparse(a.value) != 'transformer(np.array([coordinate], dtype=float))':
+        raise Unsupported(f'map_coordinate_into_pixel_matrix: {ast.unparse(a.value)}')
+    spans.append(a)
+    a = _local_assign(fn, 'pixel_matrix_coordinates')
+    if ast.unparse(a.value) != 'transformed_coordinates[0, :].tolist()':
+        raise Unsupported(f'map_coordinate_into_pixel_matrix: {ast.unparse(a.value)}')
+    spans.append(a)
+    ret = _one((n for n in fn.body if isinstance(n, ast.Return)), 'return of map_coordinate_into_pixel_matrix')
+    if ast.unparse(ret.value) != '(round(pixel_matrix_coordinates[0]), round(pixel_matrix_coordinates[1]), round(pixel_matrix_coordinates[2]))':
+        raise Unsupported(f'map_coordinate_into_pixel_matrix returns {ast.unparse(ret.value)}')
+    spans.append(ret)
+    _images_part(tree, out, spans)
+    return '\n\n'.join(out), span_sha(spans)
+
+
+def _scalar_def2(expr, lean_name, params, doc):
+    """as targets_C11.scalar_def, with the builtins float / int allowed"""
+    from py2lean import translate_block
+    import copy
+    e = copy.deepcopy(expr)
+    names = {n.id for n in ast.walk(e) if isinstance(n, ast.Name)} - {'abs', 'float', 'int'}
+    unknown = names - {p for p, _ in params}
+    if unknown:
+        raise Unsupported(f'{lean_name}: unexpected names {sorted(unknown)} in {ast.unparse(expr)}')
+    missing = {p for p, _ in params} - names
+    if missing:
+        raise Unsupported(f'{lean_name}: {sorted(missing)} not used in {ast.unparse(expr)}')
+    ret = ast.Return(value=e)
+    ast.fix_missing_locations(ast.Module(body=[ret], type_ignores=[]))
+    return translate_block([ret], lean_name, params, {}, doc=doc)
+
+
+def _src(node):
+    return ' '.join(ast.unparse(node).split())
+
+
+def _expect(node, text, what):
+    if _src(node) != ' '.join(text.split()):
+        raise Unsupported(f'{what}: `{_src(node)[:160]}` (expected `{text[:160]}`)')
+
+
+_GSI_CALL = ('_get_spatial_information({ds}, frame_number={fn}, for_total_pixel_matrix={tot})')
+
+
+def _for_image_def(tree, cls, lean, out, spans, inverse):
+    """for_image of one class: the tuple returned by _get_spatial_information is unpacked into names, some of these reach the
+    constructor keywords; the inverse classes replace a missing slice spacing by a default; flags are passed on under their own name"""
+    fn = find_func(tree, f'{cls}.for_image')
+    a = _one((n for n in ast.walk(fn) if isinstance(n, ast.Assign) and isinstance(n.value, ast.Call)
+              and ast.unparse(n.value.func) == '_get_spatial_information'), f'{cls}.for_image: call of _get_spatial_information')
+    _expect(a.value, _GSI_CALL.format(ds='dataset', fn='frame_number', tot='for_total_pixel_matrix'), f'{cls}.for_image')
+    tgt = a.targets[0]
+    if not (isinstance(tgt, ast.Tuple) and len(tgt.elts) == 4 and all(isinstance(e, ast.Name) for e in tgt.elts)):
+        raise Unsupported(f'{cls}.for_image: result is not unpacked into four names')
+    names = [e.id if e.id != '_' else f'unused{i}' for i, e in enumerate(tgt.elts)]
+    spans.append(a)
+    ret = _one((n for n in fn.body if isinstance(n, ast.Return)), f'{cls}.for_image: return')
+    call = ret.value
+    if not (isinstance(call, ast.Call) and ast.unparse(call.func) == 'cls' and not call.args):
+        raise Unsupported(f'{cls}.for_image: return is not cls(...)')
+    geo, flags = {}, []
+    for k in call.keywords:
+        if k.arg in ('round_output', 'drop_slice_index', 'drop_slice_coord'):
+            if ast.unparse(k.value) != k.arg:
+                raise Unsupported(f'{cls}.for_image: flag {k.arg}={ast.unparse(k.value)}')
+            flags.append(k.arg)
+        else:
+            if not (isinstance(k.value, ast.Name) and k.value.id in [e.id for e in tgt.elts if e.id != '_']):
+                raise Unsupported(f'{cls}.for_image: {k.arg}={ast.unparse(k.value)} is not an element of the spatial information')
+            geo[k.arg] = names[[e.id for e in tgt.elts].index(k.value.id)]
+    want_flags = {'PixelToReferenceTransformer': [], 'ImageToReferenceTransformer': [],
+                  'ReferenceToPixelTransformer': ['round_output', 'drop_slice_index'],
+                  'ReferenceToImageTransformer': ['drop_slice_coord']}[cls]
+    if sorted(flags) != sorted(want_flags):
+        raise Unsupported(f'{cls}.for_image: flags passed on {flags}, expected {want_flags}')
+    unknown = set(geo) - {s for s, _ in _AFFINE_SLOTS}
+    if unknown:
+        raise Unsupported(f'{cls}.for_image: keywords {sorted(unknown)} are not modelled')
+    tv = {n: f'T{i}' for i, n in enumerate(names)}
+    comps, types = [], []
+    for sname, required in _AFFINE_SLOTS:
+        if sname in geo:
+            comps.append(geo[sname] if required else f'some {geo[sname]}')
+            types.append(tv[geo[sname]] if required else f'Option {tv[geo[sname]]}')
+        elif required:
+            raise Unsupported(f'{cls}.for_image: {sname} is not passed')
+        else:
+            comps.append('none')
+            types.append('Option Rat')
+    out.append(f'/-- `{cls}.for_image`: which element of `_get_spatial_information(..)` (position, orientation, pixel spacing, slice\n'
+               f'spacing - in the order of its return statement) reaches which constructor keyword -/\n'
+               f'def {lean} {{{" ".join(tv[n] for n in names)} : Type}} {" ".join(f"({n} : {tv[n]})" for n in names)} :\n'
+               f'    {" × ".join(types)} :=\n  ({", ".join(comps)})')
+    spans.append(ret)
+    if inverse:
+        iff = _one((n for n in fn.body if isinstance(n, ast.If)), f'{cls}.for_image: default slice spacing')
+        sl = names[3]
+        if not (_src(iff.test) == f'{sl} is None' and len(iff.body) == 1 and not iff.orelse and isinstance(iff.body[0], ast.Assign)
+                and ast.unparse(iff.body[0].targets[0]) == sl):
+            raise Unsupported(f'{cls}.for_image: `if {sl} is None: {sl} = ...` expected, found {_src(iff)[:100]}')
+        if fn.body.index(iff) > fn.body.index(ret) or fn.body.index(iff) < fn.body.index(a):
+            raise Unsupported(f'{cls}.for_image: default slice spacing is not between the lookup and the constructor')
+        out.append(f'/-- `{cls}.for_image`: slice spacing used when the dataset declares none -/\n'
+                   f'def {lean}DefaultSliceSpacing : Rat := {_rat(iff.body[0].value)}')
+        spans.append(iff)
+
+
+def _for_images_def(tree, cls, lean, out, spans):
+    fn = find_func(tree, f'{cls}.for_images')
+    calls = [n for n in fn.body if isinstance(n, ast.Assign) and isinstance(n.value, ast.Call)
+             and ast.unparse(n.value.func) == '_get_spatial_information']
+    if len(calls) != 2:
+        raise Unsupported(f'{cls}.for_images: {len(calls)} calls of _get_spatial_information')
+    names = []
+    for a, sfx in zip(calls, ('from', 'to')):
+        _expect(a.value, _GSI_CALL.format(ds=f'dataset_{sfx}', fn=f'frame_number_{sfx}', tot=f'for_total_pixel_matrix_{sfx}'), f'{cls}.for_images')
+        tgt = a.targets[0]
+        if not (isinstance(tgt, ast.Tuple) and len(tgt.elts) == 4 and all(isinstance(e, ast.Name) for e in tgt.elts)):
+            raise Unsupported(f'{cls}.for_images: result is not unpacked into four names')
+        names += [e.id for e in tgt.elts[:3]]
+        if tgt.elts[3].id != '_':
+            raise Unsupported(f'{cls}.for_images: the slice spacing is used')
+        spans.append(a)
+    ret = _one((n for n in fn.body if isinstance(n, ast.Return)), f'{cls}.for_images: return')
+    call = ret.value
+    if not (isinstance(call, ast.Call) and ast.unparse(call.func) == 'cls' and not call.args):
+        raise Unsupported(f'{cls}.for_images: return is not cls(...)')
+    slots = ['image_position_from', 'image_orientation_from', 'pixel_spacing_from', 'image_position_to', 'image_orientation_to',
+             'pixel_spacing_to']
+    kw = {}
+    for k in call.keywords:
+        if k.arg == 'round_output':
+            if ast.unparse(k.value) != 'round_output':
+                raise Unsupported(f'{cls}.for_images: round_output={ast.unparse(k.value)}')
+            continue
+        if k.arg not in slots or not (isinstance(k.value, ast.Name) and k.value.id in names):
+            raise Unsupported(f'{cls}.for_images: {k.arg}={ast.unparse(k.value)}')
+        kw[k.arg] = k.value.id
+    if sorted(kw) != sorted(slots):
+        raise Unsupported(f'{cls}.for_images: keywords {sorted(kw)}')
+    has_round = any(k.arg == 'round_output' for k in call.keywords)
+    if has_round != (cls == 'PixelToPixelTransformer'):
+        raise Unsupported(f'{cls}.for_images: round_output passed on: {has_round}')
+    tv = {n: f'T{i}' for i, n in enumerate(names)}
+    out.append(f'/-- `{cls}.for_images`: which element of the two `_get_spatial_information(..)` results reaches which constructor keyword -/\n'
+               f'def {lean} {{{" ".join(tv[n] for n in names)} : Type}} {" ".join(f"({n} : {tv[n]})" for n in names)} :\n'
+               f'    {" × ".join(tv[kw[s_]] for s_ in slots)} :=\n  ({", ".join(kw[s_] for s_ in slots)})')
+    spans.append(ret)
+    # the frame-of-reference tests come first
+    tests = [n for n in fn.body if isinstance(n, ast.If)]
+    if len(tests) != 2 or fn.body.index(tests[1]) > fn.body.index(calls[0]):
+        raise Unsupported(f'{cls}.for_images: frame of reference tests changed')
+    _expect(tests[0].test, "not hasattr(dataset_from, 'FrameOfReferenceUID') or not hasattr(dataset_to, 'FrameOfReferenceUID')", f'{cls}.for_images')
+    _expect(tests[1].test, 'dataset_from.FrameOfReferenceUID != dataset_to.FrameOfReferenceUID', f'{cls}.for_images')
+    for t in tests:
+        if not (len(t.body) == 1 and isinstance(t.body[0], ast.Raise) and ast.unparse(t.body[0].exc.func) == 'ValueError' and not t.orelse):
+            raise Unsupported(f'{cls}.for_images: frame of reference test does not raise ValueError')
+        spans.append(t)
+
+
+def _lookup_chain(node, what):
+    """`if hasattr(shared_seq, 'X'): v = shared_seq.X[0] elif frame_seq is not None and hasattr(frame_seq, 'X'): v = frame_seq.X[0]
+    else: raise ValueError(..)` -> ('X', target, ['s', 'f'])"""
+    order, attr, target = [], None, None
+    cur = node
+    while True:
+        t = _src(cur.test)
+        body = cur.body
+        if not (len(body) == 1 and isinstance(body[0], ast.Assign)):
+            raise Unsupported(f'{what}: branch body {_src(cur)[:100]}')
+        val = body[0].value
+        if not (isinstance(val, ast.Subscript) and _src(val.slice) == '0' and isinstance(val.value, ast.Attribute)
+                and isinstance(val.value.value, ast.Name)):
+            raise Unsupported(f'{what}: {_src(body[0])}')
+        seq, x = val.value.value.id, val.value.attr
+        tg = ast.unparse(body[0].targets[0])
+        if attr is None:
+            attr, target = x, tg
+        if x != attr or tg != target:
+            raise Unsupported(f'{what}: branches read different things: {_src(body[0])}')
+        if seq == 'shared_seq' and t == f"hasattr(shared_seq, '{x}')":
+            order.append('s')
+        elif seq == 'frame_seq' and t == f"frame_seq is not None and hasattr(frame_seq, '{x}')":
+            order.append('f')
+        else:
+            raise Unsupported(f'{what}: test `{t}` does not guard `{_src(body[0])}`')
+        if len(cur.orelse) == 1 and isinstance(cur.orelse[0], ast.If):
+            cur = cur.orelse[0]
+            continue
+        if not (len(cur.orelse) == 1 and isinstance(cur.orelse[0], ast.Raise) and ast.unparse(cur.orelse[0].exc.func) == 'ValueError'):
+            raise Unsupported(f'{what}: the chain does not end in raise ValueError')
+        break
+    return attr, target, order
+
+
+def _images_part(tree, out, spans):
+    for cls, lean, inv in (('PixelToReferenceTransformer', 'pixToRefForImage', False), ('ReferenceToPixelTransformer', 'refToPixForImage', True),
+                           ('ImageToReferenceTransformer', 'imgToRefForImage', False), ('ReferenceToImageTransformer', 'refToImgForImage', True)):
+        _for_image_def(tree, cls, lean, out, spans, inv)
+    _for_images_def(tree, 'PixelToPixelTransformer', 'pixToPixForImages', out, spans)
+    _for_images_def(tree, 'ImageToImageTransformer', 'imgToImgForImages', out, spans)
+    # ---- _get_spatial_information
+    from py2lean import strip_doc
+    fn = find_func(tree, '_get_spatial_information')
+    body = strip_doc(fn.body)
+    if len(body) != 5:
+        raise Unsupported(f'_get_spatial_information has {len(body)} top-level statements, 5 expected')
+    _expect(body[0], 'coordinate_system = get_image_coordinate_system(dataset)', '_get_spatial_information')
+    if not (isinstance(body[1], ast.If) and _src(body[1].test) == 'coordinate_system is None' and isinstance(body[1].body[0], ast.Raise)
+            and ast.unparse(body[1].body[0].exc.func) == 'ValueError'):
+        raise Unsupported('_get_spatial_information: images without coordinate system are no longer refused with ValueError')
+    _expect(body[4], 'return (position, orientation, pixel_spacing, spacing_between_slices)', '_get_spatial_information')
+    tot = body[2]
+    if not (isinstance(tot, ast.If) and _src(tot.test) == 'for_total_pixel_matrix' and not tot.orelse):
+        raise Unsupported('_get_spatial_information: total pixel matrix branch')
+    tb = tot.body
+    texts = [_src(x) for x in tb]
+    if len(tb) != 7 or not texts[0].startswith("if not hasattr(dataset, 'TotalPixelMatrixOriginSequence'): raise ValueError("):
+        raise Unsupported('_get_spatial_information: total pixel matrix branch changed: ' + ' | '.join(texts)[:300])
+    _expect(tb[1], 'origin_seq = dataset.TotalPixelMatrixOriginSequence[0]', 'total pixel matrix')
+    pos = tb[2]
+    if not (isinstance(pos, ast.Assign) and ast.unparse(pos.targets[0]) == 'position' and isinstance(pos.value, ast.Tuple) and len(pos.value.elts) == 3):
+        raise Unsupported('total pixel matrix: position')
+    _expect(pos.value.elts[0], 'origin_seq.XOffsetInSlideCoordinateSystem', 'total pixel matrix x')
+    _expect(pos.value.elts[1], 'origin_seq.YOffsetInSlideCoordinateSystem', 'total pixel matrix y')
+    z = pos.value.elts[2]
+    if not (isinstance(z, ast.Call) and ast.unparse(z.func) == 'getattr' and len(z.args) == 3
+            and _src(z.args[0]) == 'origin_seq' and _src(z.args[1]) == "'ZOffsetInSlideCoordinateSystem'"):
+        raise Unsupported(f'total pixel matrix z: {_src(z)}')
+    out.append(f'/-- `_get_spatial_information(for_total_pixel_matrix=True)`: z of the origin when the dataset has none -/\n'
+               f'def totalMatrixDefaultZ : Rat := {_rat(z.args[2])}')
+    _expect(tb[3], 'shared_seq = dataset.SharedFunctionalGroupsSequence[0]', 'total pixel matrix')
+    m = tb[4]
+    if not (isinstance(m, ast.If) and _src(m.test) == "hasattr(shared_seq, 'PixelMeasuresSequence')" and len(m.body) == 2
+            and _src(m.body[0]) == 'pixel_spacing = shared_seq.PixelMeasuresSequence[0].PixelSpacing'
+            and _src(m.body[1]) == "spacing_between_slices = getattr(shared_seq.PixelMeasuresSequence[0], 'SpacingBetweenSlices', None)"
+            and len(m.orelse) == 1 and isinstance(m.orelse[0], ast.Raise) and ast.unparse(m.orelse[0].exc.func) == 'ValueError'):
+        raise Unsupported('total pixel matrix: pixel measures: ' + _src(m)[:200])
+    out.append("/-- `_get_spatial_information(for_total_pixel_matrix=True)`: where the pixel measures are looked up ('s' = shared groups) -/\n"
+               "def totalMatrixMeasuresLookup : List Char := ['s']")
+    _expect(tb[5], 'orientation = dataset.ImageOrientationSlide', 'total pixel matrix')
+    _expect(tb[6], 'return (position, orientation, pixel_spacing, spacing_between_slices)', 'total pixel matrix')
+    spans.append(tot)
+    mf = body[3]
+    if not (isinstance(mf, ast.If) and _src(mf.test) == 'is_multiframe_image(dataset)'):
+        raise Unsupported('_get_spatial_information: multi-frame branch')
+    mb = mf.body
+    if not (_src(mb[0]).startswith('if frame_number is None: raise TypeError(')):
+        raise Unsupported('multi-frame: a missing frame number is no longer a TypeError')
+    _expect(mb[1], 'shared_seq = dataset.SharedFunctionalGroupsSequence[0]', 'multi-frame')
+    _expect(mb[2], "is_tiled_full = dataset.get('DimensionOrganizationType', '') == 'TILED_FULL'", 'multi-frame')
+    fs = mb[3]
+    if not (isinstance(fs, ast.If) and _src(fs.test) == 'is_tiled_full' and _src(fs.body[0]) == 'frame_seq = None' and len(fs.body) == 1
+            and len(fs.orelse) == 1 and isinstance(fs.orelse[0], ast.Assign) and ast.unparse(fs.orelse[0].targets[0]) == 'frame_seq'):
+        raise Unsupported('multi-frame: frame_seq: ' + _src(fs)[:200])
+    sub = fs.orelse[0].value
+    if not (isinstance(sub, ast.Subscript) and _src(sub.value) == 'dataset.PerFrameFunctionalGroupsSequence'):
+        raise Unsupported('multi-frame: frame_seq is ' + _src(sub))
+    out.append('/-- `_get_spatial_information`: a TILED_FULL image has no per-frame groups to look at -/\ndef tiledFullHasNoFrameGroups : Bool := true')
+    out.append(scalar_def(sub.slice, 'frameGroupIndex', [('frame_number', 'int')], {},
+                          '_get_spatial_information: index of the per-frame functional groups item of a frame number'))
+    spans.append(fs)
+    chains = {}
+    for n in ast.walk(mf):
+        if isinstance(n, ast.If) and _src(n.test).startswith('hasattr(shared_seq,'):
+            attr, target, order = _lookup_chain(n, '_get_spatial_information')
+            if attr in chains:
+                raise Unsupported(f'_get_spatial_information: {attr} looked up twice')
+            chains[attr] = (target, order)
+            spans.append(n)
+    if sorted(chains) != ['PixelMeasuresSequence', 'PlaneOrientationSequence', 'PlanePositionSequence', 'PlanePositionSlideSequence']:
+        raise Unsupported(f'_get_spatial_information: lookup chains {sorted(chains)}')
+    rows = [f'("{k}", [{", ".join(_ch(c) for c in chains[k][1])}])' for k in sorted(chains)]
+    out.append(lean_table('spatialLookups', 'List (String × List Char)', rows,
+                          "_get_spatial_information, multi-frame image: where each functional group is looked up, in order ('s' = shared, 'f' = per-frame item of the frame)"))
+    # what is read from the groups found
+    for txt in ('pixel_spacing = pixel_measures.PixelSpacing', "spacing_between_slices = getattr(pixel_measures, 'SpacingBetweenSlices', None)",
+                'position = [pos_seq.XOffsetInSlideCoordinateSystem, pos_seq.YOffsetInSlideCoordinateSystem, pos_seq.ZOffsetInSlideCoordinateSystem]',
+                'orientation = dataset.ImageOrientationSlide', 'position = pos_seq.ImagePositionPatient', 'orientation = pos_seq.ImageOrientationPatient'):
+        hit = [n for n in ast.walk(mf) if isinstance(n, ast.Assign) and _src(n) == txt]
+        if len(hit) != 1:
+            raise Unsupported(f'_get_spatial_information: `{txt}` found {len(hit)} times')
+        spans.append(hit[0])
+    # the frame of a TILED_FULL image
+    isl = [n for n in ast.walk(mf) if isinstance(n, ast.Assign) and 'itertools.islice' in _src(n)]
+    if len(isl) != 1:
+        raise Unsupported('_get_spatial_information: islice over iter_tiled_full_frame_data not found')
+    a = isl[0]
+    if not (_src(a.targets[0]) == '(_, _, _, _, *position)' and isinstance(a.value, ast.Call) and ast.unparse(a.value.func) == 'next'
+            and len(a.value.args) == 1 and isinstance(a.value.args[0], ast.Call) and ast.unparse(a.value.args[0].func) == 'itertools.islice'
+            and len(a.value.args[0].args) == 3 and _src(a.value.args[0].args[0]) == 'iter_tiled_full_frame_data(dataset)'):
+        raise Unsupported('_get_spatial_information: TILED_FULL frame: ' + _src(a)[:200])
+    st_, sp_ = a.value.args[0].args[1:]
+    out.append(scalar_def(st_, 'tiledFrameStart', [('frame_number', 'int')], {}, '_get_spatial_information: islice start over iter_tiled_full_frame_data'))
+    out.append(scalar_def(sp_, 'tiledFrameStop', [('frame_number', 'int')], {}, '_get_spatial_information: islice stop over iter_tiled_full_frame_data'))
+    spans.append(a)
+    sg = mf.orelse
+    if not (_src(sg[0]).startswith('if frame_number is not None and frame_number != 1: raise TypeError(')):
+        raise Unsupported('single frame: frame number rule changed: ' + _src(sg[0])[:120])
+    for st, txt in zip(sg[1:], ('position = dataset.ImagePositionPatient', 'orientation = dataset.ImageOrientationPatient',
+                                'pixel_spacing = dataset.PixelSpacing', "spacing_between_slices = getattr(dataset, 'SpacingBetweenSlices', None)")):
+        _expect(st, txt, 'single frame')
+    if len(sg) != 5:
+        raise Unsupported('single frame branch has extra statements')
+    spans.append(mf)
+    # ---- iter_tiled_full_frame_data
+    fn = find_func(tree, 'iter_tiled_full_frame_data')
+    def getattr_default(name, obj, attr, wrap):
+        a = _local_assign(fn, name)
+        v = a.value
+        if wrap:
+            if not (isinstance(v, ast.Call) and ast.unparse(v.func) == 'float' and len(v.args) == 1):
+                raise Unsupported(f'iter_tiled_full_frame_data: {name} = {_src(v)}')
+            v = v.args[0]
+        if not (isinstance(v, ast.Call) and ast.unparse(v.func) == 'getattr' and len(v.args) == 3 and _src(v.args[0]) == obj
+                and _src(v.args[1]) == repr(attr)):
+            raise Unsupported(f'iter_tiled_full_frame_data: {name} = {_src(a.value)}')
+        spans.append(a)
+        return v.args[2]
+    d = getattr_default('num_focal_planes', 'dataset', 'TotalPixelMatrixFocalPlanes', False)
+    out.append(f'/-- iter_tiled_full_frame_data: number of focal planes when the attribute is absent -/\ndef iterDefaultFocalPlanes : Nat := {_num(d)}')
+    d = getattr_default('spacing_between_slices', 'pixel_measures', 'SpacingBetweenSlices', True)
+    out.append(f'/-- iter_tiled_full_frame_data: spacing between focal planes when the attribute is absent -/\ndef iterDefaultSliceSpacing : Rat := {_rat(d)}')
+    d = getattr_default('z_origin', 'image_origin', 'ZOffsetInSlideCoordinateSystem', True)
+    out.append(f'/-- iter_tiled_full_frame_data: z of the origin when the attribute is absent -/\ndef iterDefaultZ : Rat := {_rat(d)}')
+    for name, txt in (('image_origin', 'dataset.TotalPixelMatrixOriginSequence[0]'), ('shared_fg', 'dataset.SharedFunctionalGroupsSequence[0]'),
+                      ('pixel_measures', 'shared_fg.PixelMeasuresSequence[0]'), ('x_offset', 'image_origin.XOffsetInSlideCoordinateSystem'),
+                      ('y_offset', 'image_origin.YOffsetInSlideCoordinateSystem'),
+                      ('pixel_spacing', '(float(pixel_measures.PixelSpacing[0]), float(pixel_measures.PixelSpacing[1]))')):
+        a = _local_assign(fn, name)
+        _expect(a.value, txt, f'iter_tiled_full_frame_data: {name}')
+        spans.append(a)
+    a = _local_assign(fn, 'image_orientation')
+    _expect(a.value, '(' + ', '.join(f'float(dataset.ImageOrientationSlide[{k}])' for k in range(6)) + ')', 'iter_tiled_full_frame_data: image_orientation')
+    spans.append(a)
+    ch = [n for n in ast.walk(fn) if isinstance(n, ast.Assign) and ast.unparse(n.targets[0]) == 'channels']
+    if sorted(_src(c.value) for c in ch) != sorted(['[None]', 'range(1, len(dataset.SegmentSequence) + 1)', 'range(1, num_optical_paths + 1)']):
+        raise Unsupported('iter_tiled_full_frame_data: channels: ' + ' | '.join(_src(c.value) for c in ch))
+    spans += ch
+    loop = _one((n for n in fn.body if isinstance(n, ast.For)), 'iter_tiled_full_frame_data: outer loop')
+    nest = []
+    if not (_src(loop.target) == 'channel' and _src(loop.iter) == 'channels' and len(loop.body) == 1 and isinstance(loop.body[0], ast.For)):
+        raise Unsupported('iter_tiled_full_frame_data: outer loop is not `for channel in channels`')
+    nest.append('channel')
+    l2 = loop.body[0]
+    if not (_src(l2.target) == 'slice_index' and _src(l2.iter) == 'range(1, num_focal_planes + 1)' and len(l2.body) == 2):
+        raise Unsupported('iter_tiled_full_frame_data: second loop is not `for slice_index in range(1, num_focal_planes + 1)`')
+    nest.append('slice_index')
+    zo, l3 = l2.body
+    if not (isinstance(zo, ast.Assign) and ast.unparse(zo.targets[0]) == 'z_offset'):
+        raise Unsupported('iter_tiled_full_frame_data: z_offset')
+    out.append(_scalar_def2(zo.value, 'focalPlaneZ', [('z_origin', 'rat'), ('slice_index', 'int'), ('spacing_between_slices', 'rat')],
+                          'iter_tiled_full_frame_data: z of the 1-based focal plane `slice_index`'))
+    if not (isinstance(l3, ast.For) and _src(l3.target) == '(offsets, coords)'):
+        raise Unsupported('iter_tiled_full_frame_data: innermost loop')
+    _expect(l3.iter, 'compute_tile_positions_per_frame(rows=dataset.Rows, columns=dataset.Columns, total_pixel_matrix_rows=dataset.TotalPixelMatrixRows, '
+            'total_pixel_matrix_columns=dataset.TotalPixelMatrixColumns, total_pixel_matrix_image_position=(x_offset, y_offset, z_offset), '
+            'image_orientation=image_orientation, pixel_spacing=pixel_spacing)', 'iter_tiled_full_frame_data: tiles')
+    nest.append('tile')
+    if not (len(l3.body) == 1 and _src(l3.body[0]) == 'yield (channel, slice_index, int(offsets[0]), int(offsets[1]), float(coords[0]), float(coords[1]), float(coords[2]))'):
+        raise Unsupported('iter_tiled_full_frame_data: yield: ' + _src(l3.body[0])[:200])
+    out.append('/-- iter_tiled_full_frame_data: its loops from the outermost to the innermost (frames are numbered in this order) -/\n'
+               'def iterLoopNest : List String := [' + ', '.join(f'"{x}"' for x in nest) + ']')
+    spans.append(loop)
+    # ---- number of tiles per direction (compute_tile_positions_per_frame)
+    fn = find_func(tree, 'compute_tile_positions_per_frame')
+    a = _local_assign(fn, 'tiles_per_column')
+    out.append(scalar_def(a.value, 'tilesPerColumn', [('total_pixel_matrix_columns', 'int'), ('columns', 'int')], {},
+                          'compute_tile_positions_per_frame: number of tile COLUMNS (range of the first meshgrid axis)'))
+    spans.append(a)
+    a = _local_assign(fn, 'tiles_per_row')
+    out.append(scalar_def(a.value, 'tilesPerRow', [('total_pixel_matrix_rows', 'int'), ('rows', 'int')], {},
+                          'compute_tile_positions_per_frame: number of tile ROWS (range of the second meshgrid axis)'))
+    spans.append(a)
+
+
+TARGETS['TC10g'] = {'file': 'spatial.py', 'build': build_TC10g}
